@@ -123,6 +123,7 @@ def run():
     ck.extra['strings_with_brackets'] = n_links
     inline_scan_layer(ck, m, quick)
     link_syntax_layer(ck, m, quick)
+    tag_syntax_layer(ck, m, quick)
     ck.extra['exhaustive_strings'] = n_exh
     # random strings over the wide alphabet: TLC computes the expected structure of their class strings in batch
     n_rand = 4000 if quick else 100000
@@ -260,6 +261,45 @@ def link_syntax_layer(ck, m, quick):
         raise core.MachineryError('LinkSyntax.tla exported only %d tails (%d links)' % (n, links))
     ck.extra['link_syntax_tails'] = n
     ck.extra['link_syntax_tails_that_are_links'] = links
+
+
+TAG_ALPHABETS = {'T1': ['a', ' ', '=', '"', "'", '>'], 'T2': ['a', '=', '/', '>', ' ', '`']}
+
+
+def tag_syntax_layer(ck, m, quick):
+    """spec/TagSyntax.tla: the attribute grammar of an open tag (names, value specifications with unquoted, single- and double-quoted
+    values, whitespace, "/>"): "<a " followed by every tail up to length 6 (quick) / 7 (thorough) over two alphabets."""
+    jobs = [('TagSyntax%s%s.cfg' % (a, 'q' if quick else 't'), ch) for a, chars in sorted(TAG_ALPHABETS.items()) for ch in chars]
+
+    def one(job):
+        cfg, sh = job
+        return core.tlc('TagSyntax', cfg, workers=1, env={'SHARD': sh}, timeout=3000, heap='2g')
+    with ThreadPoolExecutor(max_workers=core.NCPU) as ex:
+        results = list(ex.map(one, jobs))
+    n = tags = 0
+    seen = set()
+    for res in results:
+        ck.add_tlc(res)
+        for rec in res.printed_json():
+            text = rec['input']
+            if text in seen:
+                continue
+            seen.add(text)
+            got = observed(m, text)
+            ck.count(('tag-syntax', text))
+            n += 1
+            tags += rec['tag'] == 'yes'
+            ck.traces += 1
+            if n % 4099 == 1:
+                ck.sample({'input': text, 'expected': rec['html'], 'observed': got})
+            if got != rec['html']:
+                ck.violation('raw HTML tag syntax: input=%r expected=%r observed=%r' % (text, rec['html'], got),
+                             {'input': text, 'expected': rec['html'], 'observed': got, 'classes': [],
+                              'clause': 'Inline.tag-syntax' if not got.startswith('EXCEPTION') else 'Emphasis.failure'})
+    if n < 50000 or tags < 1000:
+        raise core.MachineryError('TagSyntax.tla exported only %d tails (%d tags)' % (n, tags))
+    ck.extra['tag_syntax_tails'] = n
+    ck.extra['tag_syntax_tails_that_are_tags'] = tags
 
 
 def batch(ck, recs, shard=2500):
